@@ -7,7 +7,6 @@ import torch._dynamo
 import torch.nn as nn
 import torch.optim as optim
 from gymnasium import spaces
-from tensordict import TensorDict, from_module
 from tensordict.nn import CudaGraphModule
 
 from agilerl.algorithms.core import RLAlgorithm
@@ -177,27 +176,14 @@ class DQN(RLAlgorithm):
         self.register_network_group(
             NetworkGroup(eval=self.actor, shared=self.actor_target, policy=True)
         )
-        self.register_mutation_hook(self.init_hook)
 
     def init_hook(self) -> None:
-        """Resets module parameters for the detached and target networks."""
-        param_vals: TensorDict = from_module(self.actor).detach()
+        """Copies the weights of the online network to the target network.
 
-        # NOTE: This removes the target params from the computation graph which
-        # reduces memory overhead and speeds up training, however these won't
-        # appear in the modules parameters
-        target_params: TensorDict = param_vals.clone().lock_()
-
-        # This hook is prompted after performing architecture mutations on policy / evaluation
-        # networks, which will fail since the target network is a shared network that won't be
-        # reintiialized until the end. We can bypass the error safely for this reason.
-        try:
-            target_params.to_module(self.actor_target)
-        except KeyError:
-            pass
-        finally:
-            self.param_vals = param_vals
-            self.target_params = target_params
+        NOTE: The target must keep ordinary parameters: ``soft_update()`` blends into
+        ``actor_target.parameters()`` and checkpoints / clones go through its ``state_dict()``.
+        """
+        self.actor_target.load_state_dict(self.actor.state_dict())
 
     def get_action(
         self,
